@@ -1,0 +1,34 @@
+//go:build verif
+
+package jerr
+
+// VerifFileName returns the name of the file the location points into.
+func (l Location) VerifFileName() string {
+	if l.file == nil {
+		return ""
+	}
+	return l.file.Name()
+}
+
+// VerifFileContent returns the content of the file the location points into.
+func (l Location) VerifFileContent() []byte {
+	if l.file == nil {
+		return nil
+	}
+	return l.file.Content()
+}
+
+// VerifTraceItem is one path:line entry of an include trace.
+type VerifTraceItem struct {
+	Path string
+	Line uint
+}
+
+// VerifIncludeTrace returns the include trace entries (innermost first), without the fault's own entry.
+func (e *JApiError) VerifIncludeTrace() []VerifTraceItem {
+	res := make([]VerifTraceItem, 0, len(e.includeTrace))
+	for _, i := range e.includeTrace {
+		res = append(res, VerifTraceItem{Path: i.path, Line: uint(i.atLine)})
+	}
+	return res
+}
